@@ -1,8 +1,8 @@
 #!/bin/bash
 # Must-pass corpus: 40 behaviour-preserving refactorings written by independent sub-agents (two per property; each
 # compiles and passes the full test-suite; the .txt next to each diff argues the equivalence).  The check of the
-# property must exit 0 on HEAD + diff.  Known exception (DESIGN 10.10): C09-1 renames and reverses the counter of the
-# sampler loop, which the loop invariant has to name.
+# property must exit 0 on HEAD + diff.  C09-1 (renamed, reversed counter of the sampler loop) passes since the
+# loop invariant speaks about the ghost iteration count `loopiter`.
 # usage: selftest/run_refactorings.sh [pattern]
 HERE="$(cd "$(dirname "$0")/.." && pwd)"
 PAT="${1:-}"; fail=0; n=0
@@ -10,7 +10,6 @@ for d in "$HERE"/selftest/refactorings/*${PAT}*.diff; do
   p=$(basename "$d" | cut -c1-3); n=$((n+1))
   out=$("$HERE/tools/try_refactor.sh" "$d" "$p" 2>&1); rc=$?
   if [ $rc = 0 ]; then echo "ok       $(basename $d)"
-  elif [ "$(basename $d)" = "C09-1.diff" ]; then echo "expected $(basename $d) (loop invariant names the renamed counter)"
   else echo "ALARM    $(basename $d)"; echo "$out" | tail -4; fail=1; fi
 done
 echo "refactorings: $n cases, fail=$fail"; exit $fail
